@@ -4,5 +4,6 @@ set -e
 cd "$(dirname "$0")"
 export CARGO_NET_OFFLINE=true
 mkdir -p .build work evidence replays
+./gen_registry.py
 (cd lean && lake build TrustVerif driver)
 (cd harness && cargo build --offline --features verif-hooks)
